@@ -87,14 +87,49 @@ func VerifC13() {
 		ops[t] = op
 	}
 	if nw >= 2 {
+		// identify the history for the known-findings file
 		verifrt.Tag("concurrent-writers")
+		ni, nr := 0, 0
+		same := false
+		for a, op := range ops {
+			if op.kind == 0 {
+				ni++
+			}
+			if op.kind == 1 {
+				nr++
+			}
+			for b := 0; b < a; b++ {
+				if op.kind <= 1 && ops[b].kind <= 1 && ops[b].id == op.id {
+					same = true
+				}
+			}
+		}
+		switch {
+		case ni >= 1 && nr >= 1:
+			verifrt.Tag("insert||remove")
+		case ni >= 2:
+			verifrt.Tag("insert||insert")
+		default:
+			verifrt.Tag("remove||remove")
+		}
+		if same {
+			verifrt.Tag("same-id")
+		}
 	}
 	var wg sync.WaitGroup
+	// natively the goroutines are released together (the replay repeats the
+	// history many times and relies on real parallelism); the symbolic
+	// executor controls the schedule itself
+	start := make(chan struct{})
+	native := !verifrt.IsSymbolicRun()
 	for _, op := range ops {
 		op := op
 		wg.Add(1)
 		go func() {
 			defer wg.Done()
+			if native {
+				<-start
+			}
 			switch op.kind {
 			case 0:
 				op.err = idx.Insert(verifId(op.id), verifC13Vec(op.id), nil, op.lvl)
@@ -108,6 +143,7 @@ func VerifC13() {
 			}
 		}()
 	}
+	close(start)
 	wg.Wait()
 	verifrt.Reach("joined")
 
